@@ -2706,6 +2706,13 @@ def fstring(eng, st, node):
       parts.append(x)
       if not isinstance(x, (int, str)):
         allc = False
+      # CPython (3.11+, sys.int_info.default_max_str_digits = 4300): decimal int -> str conversion of an integer
+      # with more than 4300 digits raises ValueError.  Unlike the lazily formatted logging arguments (errors inside a
+      # handler are swallowed by logging), an f-string raises into the function.
+      spec = ast.unparse(v.format_spec) if v.format_spec is not None else ""
+      if z3.is_expr(x) and z3.is_int(x) and not any(ch in spec for ch in "xXbo"):
+        lim = z3.IntVal("1" + "0" * 4300)
+        eng.implicit(st, "ValueError", z3.And(x < lim, x > -lim), v, "int -> str conversion limit (4300 digits)")
   if allc and all(not isinstance(v, ast.FormattedValue) or v.format_spec is None for v in node.values):
     return "".join(str(p) for p in parts)
   return _uf_str(eng, st, "fstr:" + ast.unparse(node)[:40], [p for p in parts if not isinstance(p, str)])
